@@ -22,7 +22,7 @@ from sim.oracle import chaos
 
 PROPERTY = "C14"
 LEVEL = "exploration"
-RUNS = {"quick": 40000, "thorough": 1000000}
+RUNS = {"quick": 100000, "thorough": 1500000}
 WALL = {"quick": 240, "thorough": 1500}
 PARTITIONS = [{"name": "default", "env": {}}]
 FAULT_KINDS = build.LAYOUT_FAULTS + ["normalised_through_a_collection", "block_input:C", "block_input:F", "keep_missed_off", "reorder", "batch_split", "empty_batch", "nan_entry", "merge_partials", "rescale", "invalidate",
